@@ -16,6 +16,7 @@ import (
 	"strconv"
 	"sync"
 	"sync/atomic"
+	"time"
 
 	sgbucket "github.com/couchbase/sg-bucket"
 	"github.com/couchbaselabs/rosmar"
@@ -189,7 +190,10 @@ func (w *World) openHandles(firstMode rosmar.OpenMode) error {
 }
 
 // Reopen closes every handle and opens them again (on-disk worlds only).
-func (w *World) Reopen() error {
+func (w *World) Reopen() error { return w.ReopenAfter(0) }
+
+// ReopenAfter closes every handle, leaves the bucket closed for the given time, and opens it again.
+func (w *World) ReopenAfter(closedFor time.Duration) error {
 	if !w.Cfg.Disk {
 		return errors.New("reopen on memory world")
 	}
@@ -199,6 +203,7 @@ func (w *World) Reopen() error {
 	for _, b := range w.Handles {
 		b.Close(ctx)
 	}
+	time.Sleep(closedFor)
 	if err := w.openHandles(rosmar.ReOpenExisting); err != nil {
 		return err
 	}
